@@ -117,6 +117,8 @@ def fake_traceback(  # type: ignore
             location = "top-level template code"
         elif function.startswith("block_"):
             location = f"block {function[6:]!r}"
+        elif function.startswith("blockx_"):
+            location = f"block {bytes.fromhex(function[7:]).decode()!r}"
 
     code = code.replace(co_name=location)
 
@@ -147,13 +149,16 @@ def get_template_locals(real_locals: t.Mapping[str, t.Any]) -> dict[str, t.Any]:
     local_overrides: dict[str, tuple[int, t.Any]] = {}
 
     for name, value in real_locals.items():
-        if not name.startswith("l_") or value is missing:
+        if not name.startswith(("l_", "lx_")) or value is missing:
             # Not a template variable, or no longer relevant.
             continue
 
         try:
-            _, depth_str, name = name.split("_", 2)
+            prefix, depth_str, name = name.split("_", 2)
             depth = int(depth_str)
+
+            if prefix == "lx":
+                name = bytes.fromhex(name).decode()
         except ValueError:
             continue
 
